@@ -250,6 +250,15 @@ func main() {
 			continue
 		}
 		if !inLedger {
+			if !l.OK && l.Status == "sat" {
+				// a refuted obligation at a site the unchanged tree does not have: a violation
+				// only if the refutation replays on the real code
+				if ok, _ := tryReplay(eng, prop, l, seed); ok {
+					claimed++
+					violations = append(violations, reportViolation(prop, replayDir, l, "new site, refutation replayed on the real code", eng, seed))
+					continue
+				}
+			}
 			if !l.OK {
 				undecided = append(undecided, fmt.Sprintf("%s (%s) %s", n, l.Status, l.Pos))
 				fmt.Fprintf(os.Stderr, "UNDECIDED: %s at %s: %s (not in the ledger of the unchanged tree)\n", n, l.Pos, l.Status)
